@@ -18,6 +18,7 @@ RULE = (
     "A small enumerated family (memento -> chain of 1-3 plain helpers -> memento, every helper of the chain re-defined in the running process to call another memento function or to skip ahead) and, for random programs, one plain helper is additionally re-defined in the running process with a retargeted call edge (no memento registration) and the closures are asked again and compared with the model of the edited program. "
     "Non-trivial = graph with a cycle, a memento node reachable only through a plain node, or a hidden edge; distinct by graph."
     " Round 5: renamed definitions (builtin names, very long names)."
+    " Round 6: a three-node family mixing a named and a dynamic edge on one function (every kind of the other two nodes, both orders, inner edge named or dynamic)."
 )
 ASSUMPTIONS = [
     "closures are compared for automatically-versioned functions only (an explicit version switches the function's own dependency analysis off by design); explicitly-versioned memento functions do appear as graph nodes and as callees of hidden calls, and the dependency-graph edge set of a function is not compared when an explicitly-versioned function lies beneath it",
